@@ -204,6 +204,13 @@ def mkh(kind):
         if ob.oid.startswith("O3.override."):
             ob.oid = "O8.component_untouched." + ob.oid.split(".")[-1]
             obs.append(ob)
+    # O9: values handed to the attribute algebra are never written through, and the per-page border pass leaves the document's
+    # body untouched (shared with C09-O1 / C09-O5): a body shared by two documents is the same for the second one
+    from .C09 import build as c09_build
+    for ob in c09_build(tier, seed)[0]:
+        if ob.oid.startswith("O1.broadcast.") or ob.oid == "O5.page_binding":
+            ob.oid = "O9." + ob.oid.split(".", 1)[1]
+            obs.append(ob)
     meta = {
         "explanation": "Instead of exploring histories, the pre-state is made symbolic: for an ARBITRARY residual colour context "
                        "(the only process-global state the encode path reads, cf. the census of C15) the real encode paths must "
